@@ -11,7 +11,7 @@ Definition lc_mid_open (l : lpc) : bool := match l with LCased SOpen | LCleaned 
 
 Record WInv (s : st) : Prop := {
   w_n1 : (0 < pend s)%nat -> rd_waiting (rd s) = true -> token s = true \/ epc s = true;
-  w_n2 : ss s <> SOpen -> closeN s = true \/ ppc s = true \/ lc_mid_open (lc s) = true;
+  w_n2 : ss s <> SOpen -> closeN s = true \/ ppc s = true \/ lc_mid_open (lc s) = true \/ dpc s = true;
   w_n3 : sclosing s = true -> closeN s = true;
   w_t0 : rd_pre (rd s) = true -> tmr s = None /\ tch s = false;
   w_t1 : forall t, tmr s = Some t -> t = armed s /\ use_t s = true;
@@ -64,10 +64,10 @@ Ltac fld := cbn in *; intros; norm; rewrite ?orb_false_r, ?orb_true_r in *;
 Lemma winv_step : forall s e, WInv s -> WInv (step s e).
 Proof.
   intros s e [h1 h2 h3 h4 h5 h6 h7 h8 h9].
-  destruct s as [pend0 rbuf0 token0 closeN0 ss0 epc0 ppc0 lc0 sclosing0 now0 dl0 tmr0 tch0 use_t0 armed0 rd0 minsz0 res0].
+  destruct s as [pend0 rbuf0 token0 closeN0 ss0 epc0 ppc0 lc0 sclosing0 dpc0 now0 dl0 tmr0 tch0 use_t0 armed0 rd0 minsz0 res0].
   cbn in h1, h2, h3, h4, h5, h6, h7, h8, h9.
   destruct e; cbn [step]; unfold reader_step, wake, finish_early, finish_late, move_to, set_rd;
-    cbn [pend rbuf token closeN ss epc ppc lc sclosing now dl tmr tch use_t armed rd minsz res];
+    cbn [pend rbuf token closeN ss epc ppc lc sclosing dpc now dl tmr tch use_t armed rd minsz res];
     brk; constructor; fld.
 Qed.
 
